@@ -347,12 +347,13 @@ type Decls struct {
 	structs map[string]*types.Struct
 	tids    map[string]int
 	tidTy   map[string]types.Type
+	structBase map[string]int
 	tidSym  map[string]string
 	facts   []*Term // global axioms (ground facts about symbols)
 }
 
 func newDecls() *Decls {
-	return &Decls{seen: map[string]bool{}, structs: map[string]*types.Struct{}, tids: map[string]int{}, tidTy: map[string]types.Type{}, tidSym: map[string]string{}}
+	return &Decls{seen: map[string]bool{}, structs: map[string]*types.Struct{}, tids: map[string]int{}, tidTy: map[string]types.Type{}, structBase: map[string]int{}, tidSym: map[string]string{}}
 }
 
 func (d *Decls) add(name, decl string) {
@@ -382,7 +383,7 @@ const preamble = `(declare-datatypes ((Ptr 0)) (((zz_nilptr) (zz_new (zz_new_id 
 (declare-fun zz_ifnil () Iface)
 (declare-fun zz_fnnil () Fn)
 (declare-fun zz_dyn (Iface) Int)
-(declare-fun zz_isnew (Ptr) Bool)
+(define-fun-rec zz_isnew ((p Ptr)) Bool (ite ((_ is zz_new) p) true (ite ((_ is zz_fld) p) (zz_isnew (zz_fld_base p)) (ite ((_ is zz_elem) p) (zz_isnew (zz_elem_base p)) false))))
 (assert (= (zz_dyn zz_ifnil) 0))
 (define-fun zz_tdiv ((a Int) (b Int)) Int (ite (>= a 0) (div a b) (- (div (- a) b))))
 (define-fun zz_tmod ((a Int) (b Int)) Int (- a (* b (zz_tdiv a b))))
@@ -490,6 +491,7 @@ func (d *Decls) structSort(name string, st *types.Struct) string {
 	}
 	d.order = append(d.order, fmt.Sprintf("(declare-datatypes ((%s 0)) (((mk_%s %s))))", sn, sn, strings.Join(fs, " ")))
 	d.structs[sn] = st
+	d.structBase[sn] = (len(d.structBase) + 1) * 1000
 	return sn
 }
 
@@ -500,6 +502,12 @@ func (d *Decls) structProj(s *Term, st *types.Struct, i int) *Term {
 		return s.Args[i]
 	}
 	return mk(fs, fmt.Sprintf("%s_f%d", s.Sort, i), s)
+}
+
+// fieldPtr is the address of field i of the struct (of sort sn) at base: field ids are unique per struct type,
+// so fields of different struct types never alias (type-based disjointness).
+func (d *Decls) fieldPtr(base *Term, sn string, i int) *Term {
+	return pFld(base, d.structBase[sn]+i)
 }
 
 func (d *Decls) structMake(sortName string, fields []*Term) *Term {
